@@ -9,6 +9,7 @@ import ClvmModel.Proto.TreeHash
 import ClvmModel.Proto.Crypto
 import ClvmModel.Proto.Serde2026
 import ClvmModel.Proto.Py
+import ClvmModel.Proto.Incremental
 open Clvm Clvm.Proto
 
 /-- one request line `<KIND> <id> <args…>` ↦ one reply line `<id> <reply>` -/
@@ -35,6 +36,8 @@ def handleLine (line : String) : String :=
           | _ => none)
       | "INTERN" => handleIntern args
       | "PATH" => handlePath args
+      | "INC" => handleInc args
+      | "INCWHY" => handleIncWhy args
       | "LEN" => handleLen args
       | "PFX" => handlePfx args
       | "RUN" => handleRunWith {} Clvm.Interp.cryptoExtra args
